@@ -620,6 +620,70 @@ func init() {
 		c.Group("C07/index-discipline", "the shared item is re-pointed only after the old tree/sub-tree entries were removed; sub-tree rebuild is decided on leader, voters, learners and pending peers; range change on both keys; removals hit every index; mutators run under the BasicCluster write lock", func() { ruleRegionsInfoDiscipline(c); ruleRemoveIsAtomic(c) })
 		c.Group("C07/btree-recycling", "recycled btree nodes are cleared in every slice (items, children, rank indices); rank indices are maintained by the structural operations", func() { ruleBTreeRecycling(c) })
 		c.Group("C07/saved-copy-not-aliased", "(shared with C06) the keys the trees are ordered by are never rewritten in place: encryption for storage works on a deep copy", func() { ruleSavedCopyNotAliased(c) })
+		c.Group("C07/keys-immutable", "(shared with C06) the keys of a region meta are assigned only on a meta created in the same function", func() { ruleRegionKeysImmutable(c) })
 		c.Group("C07/end-key-infinity", "(shared with C06) an end key is ordered against other keys only where it was tested non-empty: the empty end key means +∞", func() { ruleEndKeyInfinity(c) })
 	})
+}
+
+// ruleRegionKeysImmutable: the trees are ordered by the start key of the
+// region meta they hold, and the served ranges are those byte slices. A region
+// meta's StartKey/EndKey field is therefore assigned only on an object made in
+// the same function — a literal, or proto.Clone of an existing meta — never
+// through a pointer that may be the cached region's meta (a log formatter that
+// hex-encodes "its" copy in place rewrites the index under the tree).
+func ruleRegionKeysImmutable(c *Ctx) {
+	P := c.P
+	rule := c.Prop + "/keys-immutable"
+	mpb := "github.com/pingcap/kvproto/pkg/metapb"
+	fields := []*types.Var{P.Field(mpb, "Region", "StartKey"), P.Field(mpb, "Region", "EndKey")}
+	isClone := func(v ssa.Value) bool {
+		cl, _ := callOf(v)
+		if cl == nil || cl.Call.StaticCallee() == nil || cl.Call.StaticCallee().Pkg == nil {
+			return false
+		}
+		return cl.Call.StaticCallee().Name() == "Clone" && strings.HasSuffix(cl.Call.StaticCallee().Pkg.Pkg.Path(), "protobuf/proto")
+	}
+	n := 0
+	for _, fn := range P.Funcs {
+		if P.isScaffold(fn) || !strings.HasPrefix(fnPkgPath(fn), modPath) {
+			continue
+		}
+		k := 0
+		for _, f := range fields {
+			for _, st := range storesToField(fn, f) {
+				fa, ok := st.Addr.(*ssa.FieldAddr)
+				if !ok {
+					continue
+				}
+				k++
+				n++
+				base := fa.X
+				fresh := isFreshBase(base) || derivesFrom(base, isClone, 3)
+				if !fresh {
+					// a local pointer variable assigned a fresh object earlier in this function (r := &metapb.Region{}; r.StartKey = …)
+					if u, ok := strip(base).(*ssa.UnOp); ok && u.Op == token.MUL {
+						if al, ok := u.X.(*ssa.Alloc); ok {
+							fresh = true
+							for _, ref := range *al.Referrers() {
+								if s2, ok := ref.(*ssa.Store); ok && s2.Addr == ssa.Value(al) && !(isFreshBase(s2.Val) || derivesFrom(s2.Val, isClone, 3)) {
+									fresh = false
+								}
+							}
+						}
+					}
+				}
+				if !fresh && fn.Parent() != nil && fn.Parent().Signature.Results().Len() == 1 {
+					// a RegionCreateOption: applied by NewRegionInfo/Clone to the region under construction
+					if rn := namedOf(fn.Parent().Signature.Results().At(0).Type()); rn != nil && rn.Obj().Name() == "RegionCreateOption" {
+						fresh = true
+					}
+				}
+				c.saw(fnName(outer(fn)))
+				c.Check(fresh, rule, fmt.Sprintf("assignment #%d of a region meta's %s in %s", k, f.Name(), fnName(fn)), "only on a meta created in this function (literal or proto.Clone)", P.instrPos(st), "the meta may be the one a cached region holds")
+			}
+		}
+	}
+	if n < 2 {
+		c.Undec(rule, "assignments of region meta keys in the module", "at least 2 (the hex formatter)", "", fmt.Sprint(n))
+	}
 }
